@@ -66,8 +66,8 @@ func init() {
 			if a[0].E() == smtString("%s%s") && len(a) == 2 {
 				tr := fc.tr
 				ift := types.NewInterfaceType(nil, nil)
-				e0 := tr.load(tr.cur, tr.u.sla(a[1], "0"), ift)
-				e1 := tr.load(tr.cur, tr.u.sla(a[1], "1"), ift)
+				e0 := tr.loadTag(tr.cur, tr.u.sla(a[1], "0"), ift, "elem")
+				e1 := tr.loadTag(tr.cur, tr.u.sla(a[1], "1"), ift, "elem")
 				sid := fmt.Sprint(tr.u.typeID(str))
 				isStr := and(eq(slPart(a[1], 2), "2"), eq(ifPart(e0, 0), sid), eq(ifPart(e1, 0), sid))
 				cat := "(str.++ " + tr.u.unbox(ifPart(e0, 1), "String") + " " + tr.u.unbox(ifPart(e1, 1), "String") + ")"
@@ -101,7 +101,7 @@ func noop(fc *fctx, a []*Val, _ token.Pos) []*Val { return []*Val{} }
 func (tr *Translator) declLower() {
 	u := tr.u
 	u.decl("str_lower", "(declare-fun str_lower (String) String)")
-	u.decl("str_lower_idem", "(assert (forall ((s String)) (! (= (str_lower (str_lower s)) (str_lower s)) :pattern ((str_lower s)))))")
+	u.decl("str_lower_idem", "(assert (forall ((s String)) (! (= (str_lower (str_lower s)) (str_lower s)) :pattern ((str_lower (str_lower s))))))")
 	u.decl("str_lower_len", "(assert (forall ((s String)) (! (= (str.len (str_lower s)) (str.len s)) :pattern ((str_lower s)))))")
 }
 
